@@ -35,6 +35,7 @@ def _count(body, pred):
 
 
 _IMPORTING_C03 = False
+_IMPORTING_C06 = False
 
 
 def check(ctx):
@@ -216,9 +217,13 @@ def check(ctx):
         if not getattr(ctx, "deferred_infra", None): ctx.floor("R10.8", 5)
     # ------------------------------------------------------------------ R10.9 a listener told to end still yields what was accepted for it before: the end flag is consulted
     # only when its queue answered empty (shared with C06 R06.2)
-    if getattr(ctx, "pid", None) == "C10":
+    global _IMPORTING_C06
+    _c06 = importlib.import_module("props.C06")
+    if getattr(ctx, "pid", None) == "C10" and not _IMPORTING_C06 and not getattr(_c06, "_IMPORTING_C10", False):
         sub6 = util.fresh_ctx(ctx, "C06")
-        util.guarded(ctx, importlib.import_module("props.C06").check, sub6)
+        _IMPORTING_C06 = True
+        try: util.guarded(ctx, _c06.check, sub6)
+        finally: _IMPORTING_C06 = False
         for o in sub6.obs:
             if o["rule"] == "R06.2":
                 ctx.ob("R10.9", o["key"], o["ok"], o["site"], o["detail"], o["nontrivial"])
